@@ -554,21 +554,16 @@ orc_program_add_constant_str (OrcProgram *program, int size,
   orc_int64 val_i;
   double val_d;
   int j;
+  orc_union64 parsed;
 
-  i = ORC_VAR_C1 + program->n_const_vars;
-
-  if (program->n_const_vars >= ORC_MAX_CONST_VARS) {
-    orc_program_set_error (program, "too many constants allocated");
-    return 0;
-  }
-
+  parsed.i = 0;
   val_i = _strtoll (value, &end, 0);
   if (end[0] == 0) {
-    program->vars[i].value.i = val_i;
+    parsed.i = val_i;
     if (size == 0)
       size = 4;
   } else if ((end[0] == 'l' || end[0] == 'L') && end[1] == 0) {
-    program->vars[i].value.i = val_i;
+    parsed.i = val_i;
     if (size == 0)
       size = 8;
   } else {
@@ -577,11 +572,11 @@ orc_program_add_constant_str (OrcProgram *program, int size,
     if (end[0] == 0) {
       orc_union32 u;
       u.f = val_d;
-      program->vars[i].value.i = u.i;
+      parsed.i = u.i;
       if (size == 0)
         size = 4;
     } else if ((end[0] == 'l' || end[0] == 'L') && end[1] == 0) {
-      program->vars[i].value.f = val_d;
+      parsed.f = val_d;
       if (size == 0)
         size = 8;
     } else {
@@ -592,12 +587,21 @@ orc_program_add_constant_str (OrcProgram *program, int size,
   for(j=0;j<program->n_const_vars;j++){
     /* only a constant that was given the same name can be reused: the
      * caller refers to the constant by that name afterwards */
-    if (program->vars[ORC_VAR_C1 + j].value.i == program->vars[i].value.i &&
+    if (program->vars[ORC_VAR_C1 + j].value.i == parsed.i &&
         program->vars[ORC_VAR_C1 + j].size == size &&
         strcmp (program->vars[ORC_VAR_C1 + j].name, name) == 0) {
       return ORC_VAR_C1 + j;
     }
   }
+
+  /* a new slot is only needed when no existing constant can be reused */
+  if (program->n_const_vars >= ORC_MAX_CONST_VARS) {
+    orc_program_set_error (program, "too many constants allocated");
+    return 0;
+  }
+
+  i = ORC_VAR_C1 + program->n_const_vars;
+  program->vars[i].value = parsed;
 
   program->vars[i].vartype = ORC_VAR_TYPE_CONST;
   program->vars[i].size = size;
